@@ -114,7 +114,7 @@ pub fn evidence_json(st: &Stats, m: &EvidenceMeta) -> J {
                 ("planned_but_not_reached_by_solver", kind_table(&st.not_reached_by_kind)),
                 ("fired_by_consumer_mode", map_table(&st.fired_by_drive)),
                 ("distinct_instantiations_with_a_fired_fault", J::U(st.fired_instantiations.len() as u64)),
-                ("instantiation_axes", J::s("7 solvers x {Const<1..4>, Dyn(1..6)} x {f64, Complex<f64>} x user data {(), Counter}")),
+                ("instantiation_axes", J::s("7 solvers x {Const<1..4>, Dyn(1..17; swarm up to 39)} x {f64, Complex<f64>} x user data {(), Counter}")),
                 ("surfaced_as_err_item", J::U(st.surfaced)),
                 ("surfaced_error_was_not_the_first_fired", J::U(st.surfaced_not_first)),
                 ("surfaced_error_not_in_the_items_source_chain_not_judged", J::U(st.not_in_source_chain)),
@@ -196,7 +196,8 @@ pub fn evidence_json(st: &Stats, m: &EvidenceMeta) -> J {
                 ("runs_with_several_instances", J::U(st.multi_runs)),
                 ("runs_with_nested_polls", J::U(st.nested_polls_runs)),
                 ("isolation_comparisons", J::U(st.isolation_checks)),
-                ("swarm_runs", J::U(m.swarm_runs)),
+                ("swarm_runs_planned", J::U(m.swarm_runs)),
+                ("swarm_runs_executed_with_their_reference_and_solo_runs", J::U(st.runs_by_mode.get(&crate::stats::MODE_SWARM).copied().unwrap_or(0))),
                 ("interleaving_measure", J::s("instances share no state, so all poll interleavings of a run are equivalent by construction; the number of distinct event-log fingerprints above is the only distinct-history measure reported")),
             ]),
         ),
@@ -204,8 +205,8 @@ pub fn evidence_json(st: &Stats, m: &EvidenceMeta) -> J {
         (
             "components",
             J::obj(vec![
-                ("real", J::s("the seven IVP builders, IVPIterator, EulerSolver, RungeKuttaSolver, AdamsSolver, BDFSolver, Dimension, IVPError/IVPStatus conversions (from /repo's working tree, rebuilt by this check), nalgebra, num-complex")),
-                ("stub", J::s("the user's derivative function (smooth right-hand side + fault plan + call counter), the consumer of the iterator (poll plan), the caller of the builder (operation list)")),
+                ("real", J::s("the seven IVP builders, IVPIterator, EulerSolver, RungeKuttaSolver, AdamsSolver, BDFSolver, Dimension, IVPError/IVPStatus conversions (from the working tree of the repository under test - /repo unless VERIF_REPO says otherwise - rebuilt by this check), nalgebra, num-complex")),
+                ("stub", J::s("the user's derivative function (right-hand side from a family of ten, two of which drive the solvers into non-finite states + fault plan + call counter), the consumer of the iterator (poll plan), the caller of the builder (operation list)")),
             ]),
         ),
         ("known_findings_matched", J::U(m.known_findings_matched)),
@@ -220,7 +221,7 @@ pub fn evidence_json(st: &Stats, m: &EvidenceMeta) -> J {
             "assumptions",
             J::A(vec![
                 J::s("sampled parts (placed k for long reference runs, swarm runs) are evidence, not proof"),
-                J::s("instantiated for f64 and Complex<f64>, dimensions Const<1..4> and Dyn(1..6) (builder enumerations: Const<1..3>, Dyn(2)), user data () and a counter the derivative mutates, the seven shipped solver types; in single precision (f32, Complex<f32>) only the builders are exercised (builder_half.single_precision_probe), no iteration; user-defined coefficient types are not instantiated"),
+                J::s("instantiated for f64 and Complex<f64>, dimensions Const<1..4> and Dyn(1..17; swarm up to 39) (builder enumerations: Const<1..3>, Dyn(2)), user data () and a counter the derivative mutates, the seven shipped solver types; in single precision (f32, Complex<f32>) only the builders are exercised (builder_half.single_precision_probe), no iteration; user-defined coefficient types are not instantiated"),
                 J::s("non-finite arguments, wrong-length initial-condition slices and new_dyn(0) on a dynamic dimension are outside the statement and not generated (new_dyn(k) on a static dimension, k = 0 included, is generated: it is dimension misuse)"),
                 J::s("Euler::with_tolerance(non-positive) may return Ok or Err(ToleranceOOB) (documented no-op; DESIGN 3.7); Euler::solve() with the step given only through with_minimum_dt may return Ok or Err(MissingParameters)"),
                 J::s("clause B7 (min <= max) is observed through the two cfg(bacon_verif) accessors; a violation needs both the builder at solve() and the built solver to show minimum > maximum (DESIGN 3.5.2)"),
